@@ -150,6 +150,10 @@ fn cv<T: FromMeta + Obs>(m: &syn::Meta) -> Result<MV, darling::Error> {
 fn fnone<T: FromMeta + Obs>() -> Option<MV> {
     T::from_none().map(|v| v.obs())
 }
+type ValueConv = fn(&syn::Lit) -> Result<MV, darling::Error>;
+fn cval<T: FromMeta + Obs>(l: &syn::Lit) -> Result<MV, darling::Error> {
+    T::from_value(l).map(|v| v.obs())
+}
 type ListConv = fn(&[darling_core::ast::NestedMeta]) -> Result<MV, darling::Error>;
 fn cl<T: FromMeta + Obs>(items: &[darling_core::ast::NestedMeta]) -> Result<MV, darling::Error> {
     T::from_list(items).map(|v| v.obs())
@@ -180,34 +184,37 @@ pub struct Entry {
     /// the `from_list` entry (what a flatten field calls)
     pub list: ListConv,
     pub base_list: ListConv,
+    /// the `from_value` entry (a literal in nested position: `name("x", 5)`)
+    pub value: ValueConv,
+    pub base_value: ValueConv,
 }
 
 macro_rules! w1 {
     ($name:expr, $t:ty, $out:ident) => {
-        $out.push(Entry { inner: $name, chain: vec![W::Opt], conv: cv::<Option<$t>>, from_none: fnone::<Option<$t>>, base: cv::<$t>, base_none: fnone::<$t>, list: cl::<Option<$t>>, base_list: cl::<$t> });
-        $out.push(Entry { inner: $name, chain: vec![W::Boxed], conv: cv::<Box<$t>>, from_none: fnone::<Box<$t>>, base: cv::<$t>, base_none: fnone::<$t>, list: cl::<Box<$t>>, base_list: cl::<$t> });
-        $out.push(Entry { inner: $name, chain: vec![W::RcW], conv: cv::<Rc<$t>>, from_none: fnone::<Rc<$t>>, base: cv::<$t>, base_none: fnone::<$t>, list: cl::<Rc<$t>>, base_list: cl::<$t> });
-        $out.push(Entry { inner: $name, chain: vec![W::ArcW], conv: cv::<Arc<$t>>, from_none: fnone::<Arc<$t>>, base: cv::<$t>, base_none: fnone::<$t>, list: cl::<Arc<$t>>, base_list: cl::<$t> });
-        $out.push(Entry { inner: $name, chain: vec![W::Cell], conv: cv::<RefCell<$t>>, from_none: fnone::<RefCell<$t>>, base: cv::<$t>, base_none: fnone::<$t>, list: cl::<RefCell<$t>>, base_list: cl::<$t> });
-        $out.push(Entry { inner: $name, chain: vec![W::Spanned], conv: cv::<SpannedValue<$t>>, from_none: fnone::<SpannedValue<$t>>, base: cv::<$t>, base_none: fnone::<$t>, list: cl::<SpannedValue<$t>>, base_list: cl::<$t> });
-        $out.push(Entry { inner: $name, chain: vec![W::Orig], conv: cv::<WithOriginal<$t, syn::Meta>>, from_none: fnone::<WithOriginal<$t, syn::Meta>>, base: cv::<$t>, base_none: fnone::<$t>, list: cl::<WithOriginal<$t, syn::Meta>>, base_list: cl::<$t> });
-        $out.push(Entry { inner: $name, chain: vec![W::Over], conv: cv::<Override<$t>>, from_none: fnone::<Override<$t>>, base: cv::<$t>, base_none: fnone::<$t>, list: cl::<Override<$t>>, base_list: cl::<$t> });
-        $out.push(Entry { inner: $name, chain: vec![W::DRes], conv: cv::<darling::Result<$t>>, from_none: fnone::<darling::Result<$t>>, base: cv::<$t>, base_none: fnone::<$t>, list: cl::<darling::Result<$t>>, base_list: cl::<$t> });
-        $out.push(Entry { inner: $name, chain: vec![W::MRes], conv: cv::<Result<$t, syn::Meta>>, from_none: fnone::<Result<$t, syn::Meta>>, base: cv::<$t>, base_none: fnone::<$t>, list: cl::<Result<$t, syn::Meta>>, base_list: cl::<$t> });
+        $out.push(Entry { inner: $name, chain: vec![W::Opt], conv: cv::<Option<$t>>, from_none: fnone::<Option<$t>>, base: cv::<$t>, base_none: fnone::<$t>, list: cl::<Option<$t>>, base_list: cl::<$t>, value: cval::<Option<$t>>, base_value: cval::<$t> });
+        $out.push(Entry { inner: $name, chain: vec![W::Boxed], conv: cv::<Box<$t>>, from_none: fnone::<Box<$t>>, base: cv::<$t>, base_none: fnone::<$t>, list: cl::<Box<$t>>, base_list: cl::<$t>, value: cval::<Box<$t>>, base_value: cval::<$t> });
+        $out.push(Entry { inner: $name, chain: vec![W::RcW], conv: cv::<Rc<$t>>, from_none: fnone::<Rc<$t>>, base: cv::<$t>, base_none: fnone::<$t>, list: cl::<Rc<$t>>, base_list: cl::<$t>, value: cval::<Rc<$t>>, base_value: cval::<$t> });
+        $out.push(Entry { inner: $name, chain: vec![W::ArcW], conv: cv::<Arc<$t>>, from_none: fnone::<Arc<$t>>, base: cv::<$t>, base_none: fnone::<$t>, list: cl::<Arc<$t>>, base_list: cl::<$t>, value: cval::<Arc<$t>>, base_value: cval::<$t> });
+        $out.push(Entry { inner: $name, chain: vec![W::Cell], conv: cv::<RefCell<$t>>, from_none: fnone::<RefCell<$t>>, base: cv::<$t>, base_none: fnone::<$t>, list: cl::<RefCell<$t>>, base_list: cl::<$t>, value: cval::<RefCell<$t>>, base_value: cval::<$t> });
+        $out.push(Entry { inner: $name, chain: vec![W::Spanned], conv: cv::<SpannedValue<$t>>, from_none: fnone::<SpannedValue<$t>>, base: cv::<$t>, base_none: fnone::<$t>, list: cl::<SpannedValue<$t>>, base_list: cl::<$t>, value: cval::<SpannedValue<$t>>, base_value: cval::<$t> });
+        $out.push(Entry { inner: $name, chain: vec![W::Orig], conv: cv::<WithOriginal<$t, syn::Meta>>, from_none: fnone::<WithOriginal<$t, syn::Meta>>, base: cv::<$t>, base_none: fnone::<$t>, list: cl::<WithOriginal<$t, syn::Meta>>, base_list: cl::<$t>, value: cval::<WithOriginal<$t, syn::Meta>>, base_value: cval::<$t> });
+        $out.push(Entry { inner: $name, chain: vec![W::Over], conv: cv::<Override<$t>>, from_none: fnone::<Override<$t>>, base: cv::<$t>, base_none: fnone::<$t>, list: cl::<Override<$t>>, base_list: cl::<$t>, value: cval::<Override<$t>>, base_value: cval::<$t> });
+        $out.push(Entry { inner: $name, chain: vec![W::DRes], conv: cv::<darling::Result<$t>>, from_none: fnone::<darling::Result<$t>>, base: cv::<$t>, base_none: fnone::<$t>, list: cl::<darling::Result<$t>>, base_list: cl::<$t>, value: cval::<darling::Result<$t>>, base_value: cval::<$t> });
+        $out.push(Entry { inner: $name, chain: vec![W::MRes], conv: cv::<Result<$t, syn::Meta>>, from_none: fnone::<Result<$t, syn::Meta>>, base: cv::<$t>, base_none: fnone::<$t>, list: cl::<Result<$t, syn::Meta>>, base_list: cl::<$t>, value: cval::<Result<$t, syn::Meta>>, base_value: cval::<$t> });
     };
 }
 
 macro_rules! w2_outer {
     ($name:expr, $t:ty, $inner_w:expr, $inner_ty:ty, $out:ident) => {
-        $out.push(Entry { inner: $name, chain: vec![W::Opt, $inner_w], conv: cv::<Option<$inner_ty>>, from_none: fnone::<Option<$inner_ty>>, base: cv::<$t>, base_none: fnone::<$t>, list: cl::<Option<$inner_ty>>, base_list: cl::<$t> });
-        $out.push(Entry { inner: $name, chain: vec![W::Boxed, $inner_w], conv: cv::<Box<$inner_ty>>, from_none: fnone::<Box<$inner_ty>>, base: cv::<$t>, base_none: fnone::<$t>, list: cl::<Box<$inner_ty>>, base_list: cl::<$t> });
-        $out.push(Entry { inner: $name, chain: vec![W::RcW, $inner_w], conv: cv::<Rc<$inner_ty>>, from_none: fnone::<Rc<$inner_ty>>, base: cv::<$t>, base_none: fnone::<$t>, list: cl::<Rc<$inner_ty>>, base_list: cl::<$t> });
-        $out.push(Entry { inner: $name, chain: vec![W::Cell, $inner_w], conv: cv::<RefCell<$inner_ty>>, from_none: fnone::<RefCell<$inner_ty>>, base: cv::<$t>, base_none: fnone::<$t>, list: cl::<RefCell<$inner_ty>>, base_list: cl::<$t> });
-        $out.push(Entry { inner: $name, chain: vec![W::Spanned, $inner_w], conv: cv::<SpannedValue<$inner_ty>>, from_none: fnone::<SpannedValue<$inner_ty>>, base: cv::<$t>, base_none: fnone::<$t>, list: cl::<SpannedValue<$inner_ty>>, base_list: cl::<$t> });
-        $out.push(Entry { inner: $name, chain: vec![W::Orig, $inner_w], conv: cv::<WithOriginal<$inner_ty, syn::Meta>>, from_none: fnone::<WithOriginal<$inner_ty, syn::Meta>>, base: cv::<$t>, base_none: fnone::<$t>, list: cl::<WithOriginal<$inner_ty, syn::Meta>>, base_list: cl::<$t> });
-        $out.push(Entry { inner: $name, chain: vec![W::Over, $inner_w], conv: cv::<Override<$inner_ty>>, from_none: fnone::<Override<$inner_ty>>, base: cv::<$t>, base_none: fnone::<$t>, list: cl::<Override<$inner_ty>>, base_list: cl::<$t> });
-        $out.push(Entry { inner: $name, chain: vec![W::DRes, $inner_w], conv: cv::<darling::Result<$inner_ty>>, from_none: fnone::<darling::Result<$inner_ty>>, base: cv::<$t>, base_none: fnone::<$t>, list: cl::<darling::Result<$inner_ty>>, base_list: cl::<$t> });
-        $out.push(Entry { inner: $name, chain: vec![W::MRes, $inner_w], conv: cv::<Result<$inner_ty, syn::Meta>>, from_none: fnone::<Result<$inner_ty, syn::Meta>>, base: cv::<$t>, base_none: fnone::<$t>, list: cl::<Result<$inner_ty, syn::Meta>>, base_list: cl::<$t> });
+        $out.push(Entry { inner: $name, chain: vec![W::Opt, $inner_w], conv: cv::<Option<$inner_ty>>, from_none: fnone::<Option<$inner_ty>>, base: cv::<$t>, base_none: fnone::<$t>, list: cl::<Option<$inner_ty>>, base_list: cl::<$t>, value: cval::<Option<$inner_ty>>, base_value: cval::<$t> });
+        $out.push(Entry { inner: $name, chain: vec![W::Boxed, $inner_w], conv: cv::<Box<$inner_ty>>, from_none: fnone::<Box<$inner_ty>>, base: cv::<$t>, base_none: fnone::<$t>, list: cl::<Box<$inner_ty>>, base_list: cl::<$t>, value: cval::<Box<$inner_ty>>, base_value: cval::<$t> });
+        $out.push(Entry { inner: $name, chain: vec![W::RcW, $inner_w], conv: cv::<Rc<$inner_ty>>, from_none: fnone::<Rc<$inner_ty>>, base: cv::<$t>, base_none: fnone::<$t>, list: cl::<Rc<$inner_ty>>, base_list: cl::<$t>, value: cval::<Rc<$inner_ty>>, base_value: cval::<$t> });
+        $out.push(Entry { inner: $name, chain: vec![W::Cell, $inner_w], conv: cv::<RefCell<$inner_ty>>, from_none: fnone::<RefCell<$inner_ty>>, base: cv::<$t>, base_none: fnone::<$t>, list: cl::<RefCell<$inner_ty>>, base_list: cl::<$t>, value: cval::<RefCell<$inner_ty>>, base_value: cval::<$t> });
+        $out.push(Entry { inner: $name, chain: vec![W::Spanned, $inner_w], conv: cv::<SpannedValue<$inner_ty>>, from_none: fnone::<SpannedValue<$inner_ty>>, base: cv::<$t>, base_none: fnone::<$t>, list: cl::<SpannedValue<$inner_ty>>, base_list: cl::<$t>, value: cval::<SpannedValue<$inner_ty>>, base_value: cval::<$t> });
+        $out.push(Entry { inner: $name, chain: vec![W::Orig, $inner_w], conv: cv::<WithOriginal<$inner_ty, syn::Meta>>, from_none: fnone::<WithOriginal<$inner_ty, syn::Meta>>, base: cv::<$t>, base_none: fnone::<$t>, list: cl::<WithOriginal<$inner_ty, syn::Meta>>, base_list: cl::<$t>, value: cval::<WithOriginal<$inner_ty, syn::Meta>>, base_value: cval::<$t> });
+        $out.push(Entry { inner: $name, chain: vec![W::Over, $inner_w], conv: cv::<Override<$inner_ty>>, from_none: fnone::<Override<$inner_ty>>, base: cv::<$t>, base_none: fnone::<$t>, list: cl::<Override<$inner_ty>>, base_list: cl::<$t>, value: cval::<Override<$inner_ty>>, base_value: cval::<$t> });
+        $out.push(Entry { inner: $name, chain: vec![W::DRes, $inner_w], conv: cv::<darling::Result<$inner_ty>>, from_none: fnone::<darling::Result<$inner_ty>>, base: cv::<$t>, base_none: fnone::<$t>, list: cl::<darling::Result<$inner_ty>>, base_list: cl::<$t>, value: cval::<darling::Result<$inner_ty>>, base_value: cval::<$t> });
+        $out.push(Entry { inner: $name, chain: vec![W::MRes, $inner_w], conv: cv::<Result<$inner_ty, syn::Meta>>, from_none: fnone::<Result<$inner_ty, syn::Meta>>, base: cv::<$t>, base_none: fnone::<$t>, list: cl::<Result<$inner_ty, syn::Meta>>, base_list: cl::<$t>, value: cval::<Result<$inner_ty, syn::Meta>>, base_value: cval::<$t> });
     };
 }
 
@@ -467,9 +474,51 @@ fn check_meta(ctx: &Ctx, m: syn::Meta, src: &str, table: &[Entry]) -> Result<(),
             ctx.class("entry:from_list");
         }
     }
+    // the `from_value` entry (a literal standing alone in a list): Override forwards it (as it forwards every hook); the others,
+    // smart pointers included (they forward from_none / from_list / from_meta only - a literal is not a meta item, so the
+    // statement is silent),
+    // leave the provided method in place, which sorts the literal by kind into the bool / string / char hooks they
+    // do not override either - the same answer a type without any override gives
+    if let syn::Meta::NameValue(syn::MetaNameValue { value: syn::Expr::Lit(el), .. }) = &m {
+        let lit = &el.lit;
+        for e in table {
+            ctx.eval();
+            let base = match catch(|| (e.base_value)(lit)) {
+                Ok(r) => r,
+                Err(p) => fail!("c12:panic", "{}::from_value(`{}`) panicked: {}", e.inner, src, p),
+            };
+            let plain = <NoHooks as FromMeta>::from_value(lit).err().map(|er| er.to_string()).unwrap_or_default();
+            let mut want: Result<MV, String> = base.map_err(|er| er.to_string());
+            for w in e.chain.iter().rev() {
+                want = match w {
+                    W::Over => want,
+                    // SpannedValue forwards it too and records the literal's span
+                    W::Spanned => want.map(|v| MV::Spanned(Box::new(v), (0, 0))),
+                    W::Boxed | W::RcW | W::ArcW | W::Cell | W::Opt | W::Orig | W::MRes | W::DRes => Err(plain.clone()),
+                };
+            }
+            let got = match catch(|| (e.value)(lit)) {
+                Ok(r) => r,
+                Err(p) => fail!("c12:panic", "{:?}<{}>::from_value(`{}`) panicked: {}", e.chain, e.inner, src, p),
+            };
+            let name = format!("{:?}<{}>::from_value", e.chain, e.inner);
+            let wsig = format!("{:?}", e.chain[0]);
+            match (&got, &want) {
+                (Ok(g), Ok(w)) => ensure!(mv_eq(g, w, true), format!("c12:from_value:value-differs:{}", wsig), "{}(value of `{}`) = {:?}, expected {:?}", name, src, g, w),
+                (Ok(g), Err(d)) => fail!(format!("c12:from_value:accepts-more:{}", wsig), "{}(value of `{}`) = {:?}, expected the error `{}`", name, src, g, d),
+                (Err(er), Ok(w)) => fail!(format!("c12:from_value:rejects-more:{}", wsig), "{}(value of `{}`) fails with `{}`, expected {:?}", name, src, er, w),
+                (Err(er), Err(d)) => ensure!(er.to_string() == *d, format!("c12:from_value:error-differs:{}", wsig), "{}(value of `{}`) fails with `{}`, expected `{}`", name, src, er, d),
+            }
+        }
+        ctx.class("entry:from_value");
+    }
     ctx.sample(|| json!({"item": src, "form": form}));
     Ok(())
 }
+
+/// A target that overrides nothing: what the provided methods answer on their own.
+struct NoHooks;
+impl FromMeta for NoHooks {}
 
 pub fn check_from_none(ctx: &Ctx, table: &[Entry]) -> bool {
     let mut ok = true;
